@@ -399,9 +399,9 @@ func raceSig(rep string) string {
 
 func bound(tier string) int {
 	if tier == "thorough" {
-		return 3
+		return 4
 	}
-	return 2
+	return 3
 }
 
 func schedSpace(tier string) mck.Space {
